@@ -37,7 +37,11 @@ import (
 	"verif/core"
 )
 
+// streamTable is the table of stream-local types exported by TypeMapper.tla.
+var streamTable [][]Term
+
 type tourCfg struct {
+	module  string
 	name    string
 	cfg     string
 	workers int
@@ -49,6 +53,7 @@ type witness struct {
 	Cfg      string   `json:"cfg,omitempty"`
 	Universe int      `json:"universe"`
 	Line     *Line    `json:"line,omitempty"`
+	Streams  [][]Term `json:"streams,omitempty"`
 	History  *history `json:"history,omitempty"`
 }
 
@@ -61,6 +66,16 @@ func parseLines(res *core.TLCResult) ([]Line, error) {
 		var s string
 		if err := json.Unmarshal([]byte(p), &s); err != nil {
 			return nil, fmt.Errorf("cannot unquote TLC output line: %v", err)
+		}
+		if strings.HasPrefix(s, "{\"streams\"") {
+			var st struct {
+				Streams [][]Term `json:"streams"`
+			}
+			if err := json.Unmarshal([]byte(s), &st); err != nil {
+				return nil, err
+			}
+			streamTable = st.Streams
+			continue
 		}
 		var ln Line
 		if err := json.Unmarshal([]byte(s), &ln); err != nil {
@@ -116,18 +131,19 @@ func run(c *core.Ctx) error {
 		tier = "thorough"
 	}
 	tours := []tourCfg{
-		{"seq-named", "TypeContext.seq-named." + tier + ".cfg", 4, true},
-		{"seq-nest", "TypeContext.seq-nest." + tier + ".cfg", 4, true},
-		{"seq-tie", "TypeContext.seq-tie." + tier + ".cfg", 2, true},
-		{"seq-cmp", "TypeContext.seq-cmp." + tier + ".cfg", 2, true},
-		{"conc-lock", "TypeContext.conc-lock." + tier + ".cfg", 4, false},
-		{"conc-hook", "TypeContext.conc-hook." + tier + ".cfg", 4, true},
+		{"TypeContext", "seq-named", "TypeContext.seq-named." + tier + ".cfg", 4, true},
+		{"TypeContext", "seq-nest", "TypeContext.seq-nest." + tier + ".cfg", 4, true},
+		{"TypeContext", "seq-tie", "TypeContext.seq-tie." + tier + ".cfg", 2, true},
+		{"TypeContext", "seq-cmp", "TypeContext.seq-cmp." + tier + ".cfg", 2, true},
+		{"TypeContext", "conc-lock", "TypeContext.conc-lock." + tier + ".cfg", 4, false},
+		{"TypeContext", "conc-hook", "TypeContext.conc-hook." + tier + ".cfg", 4, true},
+		{"TypeMapper", "mapper", "TypeMapper." + tier + ".cfg", 4, true},
 	}
 	if !c.Quick() {
 		tours = append(tours,
-			tourCfg{"seq-level1", "TypeContext.seq-level1.thorough.cfg", 4, true},
-			tourCfg{"seq-named3", "TypeContext.seq-named3.thorough.cfg", 4, true},
-			tourCfg{"seq-nest3", "TypeContext.seq-nest3.thorough.cfg", 4, true})
+			tourCfg{"TypeContext", "seq-level1", "TypeContext.seq-level1.thorough.cfg", 4, true},
+			tourCfg{"TypeContext", "seq-named3", "TypeContext.seq-named3.thorough.cfg", 4, true},
+			tourCfg{"TypeContext", "seq-nest3", "TypeContext.seq-nest3.thorough.cfg", 4, true})
 	}
 
 	// All TLC runs of the spec -> code direction in parallel.
@@ -149,7 +165,7 @@ func run(c *core.Ctx) error {
 			if !c.Quick() {
 				timeout = 15 * time.Minute
 			}
-			res := c.MustHold(core.TLCRun{Module: "TypeContext", Cfg: t.cfg, Workers: t.workers, Timeout: timeout})
+			res := c.MustHold(core.TLCRun{Module: t.module, Cfg: t.cfg, Workers: t.workers, Timeout: timeout})
 			if res == nil {
 				outs[i].err = fmt.Errorf("TLC run %s did not hold", t.name)
 				return
@@ -199,7 +215,7 @@ func run(c *core.Ctx) error {
 	c.Add("traces_validated_against_impl", int64(st.lines))
 
 	// Non-vacuity of the exploration: every modelled mechanism was reached.
-	for _, need := range []string{"fields", "value", "decode", "tval", "tdef", "raw", "reset", "reuse"} {
+	for _, need := range []string{"fields", "value", "decode", "tval", "tdef", "raw", "reset", "reuse", "menter", "mlookup", "mreset"} {
 		if st.methods[need] == 0 {
 			c.Inconclusive("vacuous exploration: method %q never exercised", need)
 		}
@@ -229,6 +245,17 @@ func run(c *core.Ctx) error {
 			c.Set("negative_control_prediction", "corrupted predicted state rejected: "+w.drift[0])
 		}
 	}
+
+	// Multi-stream ZNG read end to end (one worker: one MapperLookupCache
+	// across the stream boundaries) and long random Mapper histories.
+	nStreams, nMapper := 60, 200
+	if !c.Quick() {
+		nStreams, nMapper = 600, 3000
+	}
+	if err := zngStreams(c, nStreams); err != nil {
+		return err
+	}
+	mapperHistories(c, nMapper)
 
 	// code -> spec: histories recorded from the real context, validated by TLC.
 	var targets []Term
@@ -363,7 +390,11 @@ func run(c *core.Ctx) error {
 
 func replayLine(c *core.Ctx, cfg string, ln *Line, uni int, st *stats, tvSeen map[string][]byte) error {
 	wit := &witness{Kind: "line", Cfg: cfg, Universe: uni, Line: ln}
+	if cfg == "mapper" {
+		wit.Streams = streamTable
+	}
 	w := newWorld(c, newUniverse(uni), wit)
+	w.streams = streamTable
 	if err := w.runLine(ln); err != nil {
 		return fmt.Errorf("replay of %s: %w", lineKey(ln), err)
 	}
@@ -379,8 +410,8 @@ func replayLine(c *core.Ctx, cfg string, ln *Line, uni int, st *stats, tvSeen ma
 			st.methods[ev.M]++
 			collectKinds(ev.OT, st.kinds)
 		}
-		if ev.E == "reuse" {
-			st.methods["reuse"]++
+		if ev.E == "reuse" || ev.E == "menter" || ev.E == "mlookup" || ev.E == "mreset" {
+			st.methods[ev.E]++
 		}
 	}
 	if last.Racy {
@@ -421,6 +452,12 @@ func shortHistory(ln *Line) string {
 			parts = append(parts, s)
 		case "reuse":
 			parts = append(parts, fmt.Sprintf("reuse(buf%d)", ev.B))
+		case "menter":
+			parts = append(parts, fmt.Sprintf("s%d.Enter(local%d=%s)->%d", ev.S, ev.K, ser1(ev.OT, ""), ev.R))
+		case "mlookup":
+			parts = append(parts, fmt.Sprintf("s%d.cache.Lookup(local%d)->%d", ev.S, ev.K, ev.R))
+		case "mreset":
+			parts = append(parts, fmt.Sprintf("Reset(mapper of stream %d)", ev.S))
 		}
 	}
 	return strings.Join(parts, " ; ")
@@ -445,6 +482,9 @@ func replay(c *core.Ctx) error {
 	case "line":
 		st := &stats{taints: map[string]int{}, methods: map[string]int{}, kinds: map[string]int{}}
 		fmt.Println("history:", shortHistory(w.Line))
+		if w.Streams != nil {
+			streamTable = w.Streams
+		}
 		return replayLine(c, w.Cfg, w.Line, w.Universe, st, tvSeen)
 	case "history":
 		// Re-run the recorded calls sequentially in the recorded order of
